@@ -1,6 +1,7 @@
 //! vh: correspondence harness.  `vh <component> <seed> <count> [args]` prints one line per case:
 //!   <input numbers>\t<implementation output numbers>\t<signature>
 //! The input numbers start with the component number understood by `mrun` (the extracted model).
+mod base;
 mod broadcast;
 mod codec;
 mod conn;
@@ -10,6 +11,7 @@ mod robs_list;
 mod robs_vec;
 mod io;
 mod rng;
+mod settle;
 mod robs_map;
 mod robs_set;
 mod transport;
@@ -132,6 +134,7 @@ fn main() {
         "robs_set" => robs_set::run(seed, count, &extra, &mut out),
         "broadcast" => broadcast::run(seed, count, &extra, &mut out),
         "io" => io::run(seed, count, &extra, &mut out),
+        "base" => base::run(seed, count, &extra, &mut out),
         _ => {
             eprintln!("unknown component {comp}");
             std::process::exit(2);
